@@ -147,7 +147,7 @@ func init() {
 			"one ONCE call site per query; no LIMIT; function errors under ASYNC belong to C10/C19; SPIN completion before return is not required (only 'adds no column')",
 			"ASYNC calls appear as direct select-list items (the README rules out ASYNC inside FROM clauses)",
 		},
-		Floor:         []string{"q.plain", "q.async", "q.spinasync", "q.spin", "q.once", "q.await-async", "star", "where", "nested", "shape.union", "shape.cte", "shape.multidim", "arg.null", "page", "page.empty", "order.async", "distinct.async", "joinop.derived", "joinop.both", "consumed.where", "consumed.aggregate", "consumed.group", "consumed.join-on", "consumed.in-subquery", "consumed.fnarg", "consumed.cte", "consumed.order", "builtin.async", "failwait", "lat.zero", "lat.yield", "lat.random", "lat.skewed", "lat.straggler", "table.empty", "imm.async", "imm.spin", "imm.spinasync", "imm.harness", "imm.harness-mixedcase", "imm.registered-late"},
+		Floor:         []string{"q.plain", "q.async", "q.spinasync", "q.spin", "q.once", "q.await-async", "star", "where", "nested", "shape.union", "shape.cte", "shape.cte-shadow-twice", "shape.multidim", "arg.null", "page", "page.empty", "order.async", "distinct.async", "joinop.derived", "joinop.both", "consumed.where", "consumed.aggregate", "consumed.group", "consumed.join-on", "consumed.in-subquery", "consumed.fnarg", "consumed.cte", "consumed.order", "reexec.async-failure", "builtin.async", "failwait", "lat.zero", "lat.yield", "lat.random", "lat.skewed", "lat.straggler", "table.empty", "imm.async", "imm.spin", "imm.spinasync", "imm.harness", "imm.harness-mixedcase", "imm.registered-late"},
 		MinNontrivial: 30,
 		Phases: []fw.Phase{
 			{Name: "ledger", N: func(t fw.Tier) int { return pick(t, 2500, 40000) }, Run: func(c *fw.Case) { c14Ledger(c, false) }},
@@ -155,6 +155,7 @@ func init() {
 			{Name: "failwait", N: func(t fw.Tier) int { return pick(t, 300, 6000) }, Run: c14FailWait},
 			{Name: "joinop", N: func(t fw.Tier) int { return pick(t, 300, 6000) }, Run: c14JoinOperand},
 			{Name: "consumed", N: func(t fw.Tier) int { return pick(t, 400, 8000) }, Run: c14Consumed},
+			{Name: "reexec-fail", N: func(t fw.Tier) int { return pick(t, 300, 6000) }, Run: c14ReexecFail},
 			{Name: "immediate", N: func(t fw.Tier) int { return len(c14Immediates) * 3 }, Run: c14Immediate},
 			{Name: "race", Race: true, N: func(t fw.Tier) int { return pick(t, 300, 5000) }, Run: func(c *fw.Case) { c14Ledger(c, true) }},
 		},
@@ -225,6 +226,9 @@ func c14Ledger(c *fw.Case, race bool) {
 		// the table's rows spread over an array of arrays (2 or 3 levels)
 		shape = "multidim"
 	}
+	// a CTE named like the table it reads, and read twice (by FROM and, for
+	// every row, through the marker): its body still runs once
+	cteTwice := shape == "cte" && (force == "shape.cte-shadow-twice" || c.Idx%2 == 0)
 	mult := 1
 	if shape == "union" {
 		mult = 2
@@ -375,12 +379,19 @@ func c14Ledger(c *fw.Case, race bool) {
 		case "union":
 			sql = sql + " UNION ALL " + sql
 		case "cte":
-			sql = "WITH c1 AS (" + sql + ") SELECT * FROM c1"
+			if cteTwice {
+				sql = "WITH t1 AS (" + sql + ") SELECT * FROM t1 WHERE rid IN (SELECT rid FROM `<-t1`)"
+			} else {
+				sql = "WITH c1 AS (" + sql + ") SELECT * FROM c1"
+			}
 		}
 		return sql
 	}
 	if star {
 		feats = append(feats, "star")
+	}
+	if cteTwice {
+		feats = append(feats, "shape.cte-shadow-twice")
 	}
 	if nested {
 		feats = append(feats, "nested")
@@ -1109,4 +1120,69 @@ func c14Consumed(c *fw.Case) {
 	if len(p.Rows) >= 1 && total >= 2 {
 		c.Nontrivial(sql + "|" + val.Canon(t.Array()))
 	}
+}
+
+
+// c14ReexecFail: one Query kept and executed several times; in one of the
+// executions a background call fails. That execution reports the failure, as
+// the unqualified call does - in whichever execution it happens - and the
+// executions around it return the rows.
+func c14ReexecFail(c *fw.Case) {
+	t := gen.RandTable(c.R, gen.TableSpec{Name: "t1", MinRows: 1, MaxRows: 8, NumCols: 2, StrCols: 1, StrStyle: gen.Plain})
+	doc := DocOf(t)
+	qual := gen.Pick(c.R, []string{"ASYNC.", "ASYNC.", "AWAIT(ASYNC."})
+	closeP := ""
+	if strings.HasPrefix(qual, "AWAIT") {
+		closeP = ")"
+	}
+	sql := fmt.Sprintf("SELECT rid, %sVBG(n1)%s AS v, s1 FROM t1", qual, closeP)
+	plain := "SELECT rid, VBG(n1) AS v, s1 FROM t1"
+	armFault(0, faultNone)
+	q, nerr := newSafe(val.CopyMap(doc), sql)
+	p, perr := newSafe(val.CopyMap(doc), plain)
+	if q == nil || p == nil {
+		c.Violate("error", fmt.Sprintf("query could not be constructed: %v %v", nerr.Describe(), perr.Describe()), map[string]any{"sql": sql})
+		return
+	}
+	c.Feature("reexec.async-failure")
+	failAt := 1 + c.Intn(3) // the execution in which a call fails
+	k := 1 + c.Intn(len(t.Rows))
+	for i := 1; i <= 4; i++ {
+		run := func(qq *genql.Query) Outcome {
+			if i == failAt {
+				armFault(k, faultError)
+			} else {
+				armFault(0, faultNone)
+			}
+			o := execBuilt(qq)
+			waitBackground()
+			armFault(0, faultNone)
+			return o
+		}
+		want := run(p)
+		got := run(q)
+		c.Evals(2)
+		det := map[string]any{"sql": sql, "unqualified": plain, "doc": doc, "execution": i, "failing_execution": failAt, "fault_at_invocation": k, "observed": got.Describe(), "unqualified_result": want.Describe()}
+		if got.Panic != nil {
+			c.Violate("panic", fmt.Sprintf("panic: %v", got.Panic), det)
+			return
+		}
+		if want.OK() != got.OK() {
+			c.Violate("value", fmt.Sprintf("execution %d: with ASYNC the query %s, unqualified it %s", i, okWord(got), okWord(want)), det)
+			return
+		}
+		if want.OK() && !val.SameSeq(got.Rows, want.Rows) {
+			c.Violate("value", fmt.Sprintf("execution %d: with ASYNC the query returns %s, unqualified %s", i, short(val.Canon(got.Rows), 200), short(val.Canon(want.Rows), 200)), det)
+			return
+		}
+	}
+	c.Sample(map[string]any{"sql": sql, "failing_execution": failAt})
+	c.Nontrivial(sql + fmt.Sprint(failAt, k) + val.Canon(t.Array()))
+}
+
+func okWord(o Outcome) string {
+	if o.OK() {
+		return fmt.Sprintf("returns %d rows", len(o.Rows))
+	}
+	return fmt.Sprintf("fails (%v)", o.Err)
 }
